@@ -176,6 +176,10 @@ class TimeArray(np.ndarray, TimeInterface):
                     time = data_arr.astype(np.int64) * conv_fac
                 else:
                     # Otherwise: first convert, round and then cast to 64
+                    # (narrow floats are widened first: the product of a
+                    # float32 array and the factor would be a float32)
+                    if data_arr.dtype.kind == 'f':
+                        data_arr = data_arr.astype(np.float64)
                     time = (data_arr * conv_fac).round().astype(np.int64)
 
         # Make sure you have an array on your hands (for example, if you input
@@ -265,6 +269,9 @@ class TimeArray(np.ndarray, TimeInterface):
             if issubclass(val.dtype.type, np.integer):
                 val = val.astype(np.int64) * self._conversion_factor
             else:
+                if val.dtype.kind == 'f':
+                    # narrow floats are widened before they are scaled
+                    val = val.astype(np.float64)
                 val = (val * self._conversion_factor).round().astype(np.int64)
         return val
 
